@@ -113,7 +113,7 @@ func (ep *e2ePeer) waitExit() bool {
 
 // e2e runs scenario n; returns "" or what went wrong (kind, detail).
 func (w *world) e2e(n int) (string, string) {
-	if err := w.reset(32768, 32768*3+5000, uint64(1000+n), 524288); err != nil {
+	if err := w.reset(32768, 32768*3+5000, uint64(1000+n), 524288, nil); err != nil {
 		return "setup", err.Error()
 	}
 	for j := 0; j < w.numPieces(); j++ {
@@ -185,7 +185,7 @@ func (w *world) e2e(n int) (string, string) {
 	}
 	pc := m.(protocol.Piece)
 	off := int64(i)*int64(w.ps) + int64(b)
-	if pc.Index != i || pc.Begin != b || !bytes.Equal(pc.Data, w.content[off:off+int64(l)]) {
+	if pc.Index != i || pc.Begin != b || !bytes.Equal(pc.Data, w.contentRange(off, off+int64(l))) {
 		return "piece-payload:e2e", fmt.Sprintf("Piece %d %d len %d for Request %d %d %d", pc.Index, pc.Begin, len(pc.Data), i, b, l)
 	}
 	// a request cancelled at once is answered by exactly one of Reject / Piece (which one
